@@ -3666,6 +3666,18 @@ def pack_objects_to_data(
       progress: Optional progress reporting callback
     Returns: Tuples with (type_num, hexdigest, delta base, object chunks)
     """
+    # A pack holds every object once (git index-pack --strict rejects a
+    # repeated object, and the index would have fewer entries than the
+    # pack): drop objects whose id was already seen.
+    seen_ids = set()
+    unique_objects = []
+    for entry in objects:
+        obj_id = (entry[0] if isinstance(entry, tuple) else entry).id
+        if obj_id in seen_ids:
+            continue
+        seen_ids.add(obj_id)
+        unique_objects.append(entry)
+    objects = unique_objects  # type: ignore[assignment]
     count = len(objects)
     if deltify is None:
         # PERFORMANCE/TODO(jelmer): This should be enabled but the python
